@@ -2,7 +2,7 @@
 
 use crate::batch::{PropDef, Scen};
 use crate::core::{Ctx, VResult};
-use crate::{d1c03, d1req, d1stream, d4};
+use crate::{d1c03, d1req, d1stream, d2, d4};
 
 const REAL_SYNC: &[&str] = &[
     "fastcgi_server::parser::request::Parser (built from /repo working tree, debug-assertions + overflow-checks on)",
@@ -14,6 +14,18 @@ const STUB_SYNC: &[&str] = &[
     "the caller of the parser (caller-schedule simulator: chooser-driven feed/parse/consume/compress/select)",
     "the FastCGI client (independent wire codec + traffic generator)",
     "the transport (bytes copied into input_buffer() in chooser-picked chunks)",
+];
+
+const REAL_ASYNC: &[&str] = &[
+    "fastcgi_server::async_io::{Token::run, Request, StreamWriter, Runner} (built from /repo working tree, debug-assertions + overflow-checks on, feature verif-hooks)",
+    "fastcgi_server::parser::* underneath",
+    "futures-util (lock::Mutex, AtomicWaker, select, AsyncReadExt/AsyncWriteExt), async-lock Semaphore, event-listener (registry versions)",
+];
+const STUB_ASYNC: &[&str] = &[
+    "the async runtime (deterministic executor: strict wake-only polling, chooser-picked task order, optional spurious polls)",
+    "the socket (SimRead/SimWrite: short reads/writes, Pending, EOF, errors, zero writes)",
+    "the web server (peer model: open-loop or closed-loop client script)",
+    "the application (chooser-driven handler interpreter)",
 ];
 
 fn c02(cx: &mut Ctx) -> VResult { d1stream::stream_scenario(cx, false) }
@@ -84,6 +96,20 @@ pub fn all() -> Vec<PropDef> {
         assumptions: vec!["http::StatusCode::canonical_reason (http crate) is the reason-phrase reference", "header names equal to 'status' are excluded (documented reserved name, debug assertion)"],
         real: vec!["fastcgi_server::cgi::response::{write_headers, http_headers, simple_redirect}", "std::io::Write::write_all retry semantics", "http crate types"],
         stub: vec!["the destination (Sink: capacity, short writes, Interrupted, full-sink behaviour)"],
+    });
+    v.push(PropDef {
+        id: "C07", level: "exploration", driver: "D2 deterministic executor + simulated transport + open-loop peer + scripted handlers",
+        scens: vec![s("conn", d2::c07, 30_000, 3_000_000)],
+        rule: "each run = one connection task Token::run over the simulated transport: 1..4 requests from a compliant open-loop client (request i+1 released after EndRequest i is in the log), noise records, a chooser-driven handler (read all/part/nothing via read or fill_buf, writes, every ExitStatus), reads of 1..n bytes or Pending and writes accepting 1..n bytes or Pending at every call, spurious polls; the decoded transport log and the handler log are compared with M-conn; distinct = distinct (skeleton, digest); non-trivial = at least one non-default scheduling alternative or transport fault (short read/write, Pending) fired",
+        assumptions: vec!["client keeps one request outstanding", "handlers drop their writers before returning and become writeable before writing (documented requirements)"],
+        real: REAL_ASYNC.to_vec(), stub: STUB_ASYNC.to_vec(),
+    });
+    v.push(PropDef {
+        id: "C08", level: "exploration", driver: "D2 deterministic executor in strict wake-only mode + closed-loop peer",
+        scens: vec![s("closed_loop", d2::c08, 30_000, 3_000_000)],
+        rule: "each run = one connection under the closed-loop peer of the quantifier (whole records, delivered in arbitrary pieces; after each GetValues/unknown-type record everything further is withheld until the complete reply is in the transport log) with queries at every placement class, seeded grouping of records into bursts, seeded handler and write-side readiness; invariant at every suspension on the transport read: all replies for complete records already read are in the log; at quiescence: no wait-for cycle; non-trivial = at least one reply owed",
+        assumptions: vec!["peer sends whole records and withholds later ones (the quantifier of C08); under this peer a suspension on read cannot be mid-record behind an owed reply"],
+        real: REAL_ASYNC.to_vec(), stub: STUB_ASYNC.to_vec(),
     });
     v
 }
